@@ -7,6 +7,7 @@ every non-skip fault is recorded with a traceback; skips only with recording on,
 """
 from harness.common import run_driver
 from harness import dr_world as W
+from harness import dr_world_inc as WI
 from harness.c02 import declared
 from insights.core import dr, plugins
 
@@ -140,6 +141,164 @@ def oracle(chk, world, r, case):
                             % (name, cid, sorted(x for x in recorded[id(e)] if x is not None), lost), case)
 
 
+
+# ---------------------------------------------------------------------------------------------- round 10: entry points, observer routes
+
+OBS_ROUTES = ("broker.add_observer", "@broker.observer", "dr.add_observer", "@dr.observer", "Broker(seed_broker)")
+OBS_TYPES = ("ComponentType", "datasource", "parser", "rule", "PluginType", "vplain", "component")
+
+
+def _obs_type(name):
+    return {"ComponentType": dr.ComponentType, "datasource": plugins.datasource, "parser": plugins.parser, "rule": plugins.rule,
+            "PluginType": plugins.PluginType, "vplain": W.vplain, "component": plugins.component}[name]
+
+
+def _obs_exception(k, world, comp):
+    """what a failing observer raises: every class the engine's ladder treats specially when a COMPONENT raises it, and
+    ordinary ones; from an observer none of them may escape, stop anything or be recorded against a component"""
+    from insights.core.exceptions import (BlacklistedSpec, CalledProcessError, ContentException, SkipComponent, TimeoutException)
+    k = k % 14
+    if k == 0:
+        return dr.MissingRequirements(([comp], []))
+    if k == 1:
+        return SkipComponent("observer skip")
+    if k == 2:
+        return ContentException("observer content")
+    if k == 3:
+        return BlacklistedSpec()
+    if k == 4:
+        return CalledProcessError(127, "observer-cmd")
+    if k == 5:
+        return TimeoutException("observer timeout")
+    if k == 6:
+        return StopIteration()
+    if k == 7:
+        return AssertionError("observer assertion")
+    if k == 8:
+        return OSError(5, "observer io")
+    if k == 9:
+        return TypeError("observer type")
+    if k == 10:
+        return AttributeError("observer attribute")
+    if k == 11:
+        return UnicodeDecodeError("utf-8", b"\xff", 0, 1, "observer")
+    if k == 12:
+        return NotImplementedError()
+    return W.Crash(7)
+
+
+def observer_eval(world, seeds, ss, graph, route, tname, exc_k):
+    """one dr.run with a failing observer registered for component type `tname` through `route`; returns (Run, fired ids, expected ids)"""
+    T = _obs_type(tname)
+    fired = []
+
+    def failing(comp, broker):
+        fired.append(world.ids.get(comp))
+        raise _obs_exception(exc_k, world, comp)
+    failing.__name__ = "failing_observer_%s" % tname
+    g = dict((k, set(v)) for k, v in graph.items())
+    r = W.Run()
+    r.error = None
+    world.calls = []
+    world.exc_cache.clear()
+    del W.RAISED[:]
+    edges = world.edge_snapshot()
+    order = dr.run_order(dict((k, set(v)) for k, v in g.items()))
+    b = None
+    try:
+        if route == "broker.add_observer":
+            b = world.new_broker(seeds, ss)
+            b.add_observer(failing, T)
+        elif route == "@broker.observer":
+            b = world.new_broker(seeds, ss)
+            if b.observer(T)(failing) is not failing:
+                raise AssertionError("@broker.observer() did not hand the callback back")
+        elif route in ("dr.add_observer", "@dr.observer"):
+            with WI.global_observer(failing, T, decorator=(route == "@dr.observer")):
+                b = world.new_broker(seeds, ss)        # Broker() takes the module-level observers over when it is created
+        else:
+            sb = world.new_broker(seeds, ss)
+            sb.add_observer(failing, T)
+            b = dr.Broker(sb)
+            b.vlog, b.vworld, b.store_skips = sb.vlog, world, ss
+        W.instrument(world, b)
+        dr.run(g, broker=b)
+    except Exception as ex:
+        r.error = ex
+    r.edges_changed = world.edges_changed(edges) or world.edges_inconsistent()
+    r.broker, r.graph, r.order = b, g, order
+    r.order_ids = [world.ids[c] for c in order if c in world.ids]
+    r.calls = list(world.calls)
+    r.raised = list(W.RAISED)
+    r.text = W.canon_broker(world, b) if (r.error is None and b is not None) else "ERROR:%s" % type(r.error).__name__
+    r.run_line = world.run_line(ss, r.order_ids, [world.ids[k] for k in g])
+    want = []
+    for c in order:
+        t = dr.get_component_type(c)
+        if t is not None and isinstance(t, type) and issubclass(t, T) and c in world.ids:
+            want.append(world.ids[c])
+    return r, fired, want
+
+
+def observer_oracle(chk, world, r, fired, want, case, ref_plain):
+    """a failing observer changes nothing: same values / reports / recorded failures as without it, and it was fired once for
+    every component of its type in the order (evaluated or not: observers are fired in `finally`)"""
+    if r.error is not None:
+        return          # oracle() reports the escape
+    got = W.split_text(r.text)
+    mine = "inst=%s|missing=%s|exc=%s" % (got["inst"], got["missing"], " ".join(sorted(":".join(e.split(":")[:2]) for e in got["exc"].split())))
+    if ref_plain is not None and mine != ref_plain:
+        chk.failure("with a failing observer (%s for %s, raising %s) the evaluation gives a different result:\n  without: %s\n  with:    %s"
+                    % (case["obs_route"], case["obs_type"], type(_obs_exception(case["obs_exc"], world, None)).__name__, ref_plain, mine), case)
+
+
+def entry_oracle(chk, world, r, case):
+    """the accounting oracle on what an entry point other than dr.run leaves behind (see WI.entry_eval)"""
+    if r.error is not None:
+        chk.failure("%s: an exception escaped: %r" % (case["entry"], r.error), case)
+        return
+    if getattr(r, "seed_changed", None):
+        chk.failure("%s: %s" % (case["entry"], r.seed_changed), case)
+    if getattr(r.broker, "duplicates", None):
+        chk.failure("%s: component(s) %s are reported by more than one of the brokers handed back" % (case["entry"], r.broker.duplicates), case)
+    if case["entry"] in WI.ENTRIES[:3]:
+        for i, b in enumerate(r.brokers):
+            if getattr(b, "store_skips", False):
+                chk.failure("%s: broker #%d was created with skip recording ON (nobody switched it on)" % (case["entry"], i + 1), case)
+                break
+        # bookkeeping of every broker handed back: a traceback for each recorded exception of ITS OWN, a time for each firing
+        for i, b in enumerate(r.brokers):
+            own = set(id(e) for lst in b.exceptions.values() for e in lst)
+            try:
+                tb_ids = set(id(e) for e in b.tracebacks)
+            except Exception as ex:
+                chk.failure("%s: broker #%d: tracebacks cannot be read: %r" % (case["entry"], i + 1, ex), case)
+                continue
+            if own != tb_ids:
+                chk.failure("%s: broker #%d records %d exception object(s) but holds tracebacks for %d (each broker carries the "
+                            "tracebacks of exactly the exceptions recorded in it)" % (case["entry"], i + 1, len(own), len(tb_ids)), case)
+                break
+    oracle(chk, world, r, case)
+
+
+def union_of_answer(ans):
+    """Drivers/C04 `incr` answers per broker handed back: `#ref[keys]inst=..|missing=..|exc=.. // ...`; the union over distinct refs"""
+    seen, inst, miss, exc = set(), [], [], []
+    for part in ans.split(" // "):
+        if not part.startswith("#") or "]" not in part:
+            return ans
+        ref, rest = part[1:].split("[", 1)
+        if ref in seen:
+            continue
+        seen.add(ref)
+        p = W.split_text(rest.split("]", 1)[1])
+        inst += p["inst"].split()
+        miss += p["missing"].split()
+        exc += p["exc"].split()
+    key = lambda x: int(x.split(":")[0])
+    return "inst=%s|missing=%s|exc=%s" % (" ".join(sorted(inst, key=key)), " ".join(sorted(miss, key=key)), " ".join(sorted(exc)))
+
+
 def witness_lonely():
     """known finding: a datasource implementing no registry point raises ContentException -> recorded nowhere"""
     spec = [{"kind": "datasource", "items": [], "optional": [], "body": "f:content", "elems": []}]
@@ -202,6 +361,169 @@ def host_timeout_scenarios(chk):
             chk.failure("exceptions recorded against an unrelated component: %r" % (b.exceptions.get(later),), case)
 
 
+
+def identity_scenarios(chk):
+    """
+    Exceptions with unusual identity, on hand-built real components: one exception OBJECT raised twice by one multi-output
+    parser (and met by a second parser of the same input); two DIFFERENT objects that compare and hash equal raised by two
+    components; one object raised again in a second evaluation on another broker; an exception whose __str__/__repr__ raise
+    (logging off and on).  Each must be recorded against its raiser with a traceback; the others keep their values.
+    """
+    from insights.core.exceptions import CalledProcessError, ContentException
+
+    class EqErr(Exception):
+        def __eq__(self, other):
+            return isinstance(other, EqErr) and self.args == other.args
+
+        def __ne__(self, other):
+            return not self.__eq__(other)
+
+        def __hash__(self):
+            return hash(self.args)
+
+    class BadStr(Exception):
+        def __str__(self):
+            raise RuntimeError("str() of the exception fails")
+        __repr__ = __str__
+
+    def tb_ok(b, ex):
+        try:
+            tb = b.tracebacks.get(ex)
+        except Exception as e2:
+            return "tracebacks lookup raised %r" % (e2,)
+        if not (isinstance(tb, str) and "Traceback (most recent call last)" in tb and type(ex).__name__ in tb):
+            return "its traceback is %r" % (tb if tb is None else tb[:100],)
+        return None
+
+    def guarded(name, fn):
+        try:
+            return fn(), None
+        except Exception as ex:           # C03: nothing may escape
+            return None, ex
+
+    # -- one object raised twice by one parser, met by a second parser too
+    for k, mk in enumerate((lambda: ContentException("cached content"), lambda: CalledProcessError(127, "cached-cmd"),
+                            lambda: ValueError("cached crash"))):
+        for coe in (True, False):
+            cached = mk()
+
+            @plugins.datasource(multi_output=True)
+            def many(broker):
+                return [1, 2, 3]
+
+            @plugins.parser(many, continue_on_error=coe)
+            def twice(x, _c=cached):
+                if x in (1, 3):
+                    raise _c
+                return x * 10
+
+            @plugins.parser(many)
+            def once(x, _c=cached):
+                if x == 2:
+                    raise _c
+                return x + 100
+
+            @plugins.combiner(optional=[twice, once])
+            def after(t, o):
+                return (t, o)
+            case = {"scenario": "identity", "kind": "same-object-twice", "exc": type(cached).__name__, "continue_on_error": coe}
+            chk.case(("identity", "twice", k, coe), True)
+            chk.count("identity-scenario:same-object-twice")
+            b, err = guarded("run", lambda: dr.run(dr.get_dependency_graph(after), broker=dr.Broker()))
+            if err is not None:
+                chk.failure("one exception object raised twice by a multi-output parser: %r escaped the evaluation" % (err,), case)
+                continue
+            want_t = [20] if coe else None
+            if b.get(twice) != want_t or b.get(once) != [101, 103] or b.get(after) != (want_t, [101, 103]):
+                chk.failure("one %s object raised for elements 1 and 3 (continue_on_error=%s) and by a second parser for element 2: values are "
+                            "twice=%r once=%r dependent=%r; expected %r, [101, 103], (%r, [101, 103])"
+                            % (type(cached).__name__, coe, b.get(twice), b.get(once), b.get(after), want_t, want_t), case)
+            for comp, nm in ((twice, "twice"), (once, "once")):
+                if not any(e is cached for e in b.exceptions.get(comp, [])):
+                    chk.failure("the %s raised by parser %s is not recorded against it (recorded: %r)" % (type(cached).__name__, nm, dict(b.exceptions)), case)
+            why = tb_ok(b, cached)
+            if why:
+                chk.failure("the recorded %s: %s" % (type(cached).__name__, why), case)
+            others = [dr.get_name(c) for c, lst in b.exceptions.items() if lst and c not in (twice, once)]
+            if others:
+                chk.failure("recorded against components that raised nothing: %s" % others, case)
+    # -- two different objects that compare and hash equal
+    for k, base in enumerate((plugins.component, plugins.combiner, W.vplain)):
+        e1, e2 = EqErr("same"), EqErr("same")
+
+        @base()
+        def first(_e=e1):
+            raise _e
+
+        @base()
+        def second(_e=e2):
+            raise _e
+
+        @base(optional=[first, second])
+        def bystander(a, b_):
+            return "value"
+        case = {"scenario": "identity", "kind": "equal-not-identical", "type": base.__name__}
+        chk.case(("identity", "equal", k), True)
+        chk.count("identity-scenario:equal-not-identical")
+        b, err = guarded("run", lambda: dr.run(dr.get_dependency_graph(bystander), broker=dr.Broker()))
+        if err is not None:
+            chk.failure("two equal exception objects: %r escaped the evaluation" % (err,), case)
+            continue
+        if b.get(bystander) != "value":
+            chk.failure("a component that needs neither failed one lost its value: %r" % (b.get(bystander),), case)
+        for comp, ex, nm in ((first, e1, "first"), (second, e2, "second")):
+            got = b.exceptions.get(comp, [])
+            if len(got) != 1 or got[0] is not ex:
+                chk.failure("two components raise different exception objects that compare equal: against %s is recorded %r, not exactly "
+                            "the object it raised" % (nm, got), case)
+            why = tb_ok(b, ex)
+            if why:
+                chk.failure("the exception of %s: %s" % (nm, why), case)
+    # -- one object raised again in a second evaluation, on another broker
+    shared = ValueError("module-level failure")
+
+    @plugins.component()
+    def again(_e=shared):
+        raise _e
+    case = {"scenario": "identity", "kind": "same-object-two-evaluations"}
+    chk.case(("identity", "again"), True)
+    chk.count("identity-scenario:same-object-two-evaluations")
+    for n in (1, 2, 3):
+        b, err = guarded("run", lambda: dr.run(dr.get_dependency_graph(again), broker=dr.Broker()))
+        if err is not None:
+            chk.failure("evaluation %d raising the same exception object again: %r escaped" % (n, err), case)
+            break
+        if [e for e in b.exceptions.get(again, [])] != [shared] or tb_ok(b, shared):
+            chk.failure("evaluation %d raising the same exception object again: recorded %r, %s" % (n, b.exceptions.get(again), tb_ok(b, shared)), case)
+            break
+    # -- an exception that cannot be printed, logging off and on
+    for logging_on in (False, True):
+        @plugins.component()
+        def unprintable():
+            raise BadStr()
+
+        @plugins.component(optional=[unprintable])
+        def survivor(u):
+            return "value"
+        case = {"scenario": "identity", "kind": "unprintable-exception", "debug_logging": logging_on}
+        chk.case(("identity", "badstr", logging_on), True)
+        chk.count("identity-scenario:unprintable-exception")
+        if logging_on:
+            with WI.debug_logging():
+                b, err = guarded("run", lambda: dr.run(dr.get_dependency_graph(survivor), broker=dr.Broker()))
+        else:
+            b, err = guarded("run", lambda: dr.run(dr.get_dependency_graph(survivor), broker=dr.Broker()))
+        if err is not None:
+            chk.failure("an exception whose __str__ raises (debug logging %s): %r escaped the evaluation" % ("on" if logging_on else "off", err), case)
+            continue
+        got = b.exceptions.get(unprintable, [])
+        if len(got) != 1 or not isinstance(got[0], BadStr) or b.get(survivor) != "value":
+            chk.failure("an exception whose __str__ raises: recorded %d exception(s) against its raiser, the unrelated component holds %r"
+                        % (len(got), b.get(survivor)), case)
+        elif not isinstance(b.tracebacks.get(got[0]), str) or "Traceback (most recent call last)" not in b.tracebacks.get(got[0]):
+            chk.failure("an exception whose __str__ raises is recorded without a traceback", case)
+
+
 def make_observers():
     """failing observers of every callable kind (plain function, functools.partial, callable object, bound method, lambda)"""
     import functools
@@ -242,10 +564,13 @@ def run(chk):
         chk.finding_reproduced(KNOWN_UNHASHABLE)
     chk.witnesses.append("unhashable exception instance")
     host_timeout_scenarios(chk)
+    identity_scenarios(chk)
     lines, impl, cases = [], [], []
 
     OBSERVERS = make_observers()
     rp_cases, rp_impl, rp_own = [], [], []
+    inc_lines, inc_impl, inc_cases = [], [], []
+    obs_cases, obs_fired, obs_want = [], [], []
 
     # corpus: the repaired defect 14ced6b — a skipping element of a multi-output parser, recording on
     corpus = [{"spec": [{"kind": "datasource", "items": [], "optional": [], "body": "m:0,1,2", "multi": True, "elems": []},
@@ -300,6 +625,67 @@ def run(chk):
                 impl.append(r2.text)
                 cases.append(case2)
                 chk.count("late-registration")
+        if idx >= len(corpus) and idx % 8 == 6 and not cases[-1].get("late"):
+            # GLUE: the same evaluation with the engine's debug logging switched on (the handlers of the ladder build their
+            # messages from the component, its missing requirements and the exception): same result, nothing escapes
+            with WI.debug_logging() as sink:
+                rl = W.evaluate(world, seeds, ss, graph, mode="run", observers=obs)
+            lcase = {"spec": W.strip(spec), "seeds": seeds, "targets": targets, "order": rl.order_ids, "store_skips": ss,
+                     "observer": obs_i, "debug_logging": True, "eval_mode": "run"}
+            oracle(chk, world, rl, lcase)
+            if rl.error is None and r.error is None:
+                a, b_ = W.split_text(r.text), W.split_text(rl.text)
+                if (a["inst"], a["missing"], sorted(":".join(e.split(":")[:2]) for e in a["exc"].split())) != \
+                   (b_["inst"], b_["missing"], sorted(":".join(e.split(":")[:2]) for e in b_["exc"].split())):
+                    chk.failure("with debug logging on the evaluation gives a different result:\n  off: %s\n  on:  %s" % (r.text, rl.text), lcase)
+                lines.extend(world.lines(seeds))
+                lines.append(rl.run_line)
+                impl.append(rl.text)
+                cases.append(lcase)
+            chk.count("debug-logging-world")
+            chk.count("debug-logging:records>0" if sink.records else "debug-logging:no-records")
+        if idx >= len(corpus) and idx % 4 == 3:
+            # GLUE: the same world through the entry points that create or take over brokers
+            entry = WI.ENTRIES[(idx // 4) % len(WI.ENTRIES)]
+            fresh = entry in WI.ENTRIES[:3]
+            e_seeds, e_ss = ([], False) if fresh else (seeds, ss)
+            fo = (idx // 4) % 3 if (fresh and idx % 8 == 7) else None      # a failing MODULE-LEVEL observer on the engine's own brokers
+            re_ = WI.entry_eval(world, e_seeds, e_ss, graph, entry, rng, failing=OBSERVERS[fo] if fo is not None else None)
+            ecase = {"spec": W.strip(spec), "seeds": e_seeds, "targets": targets, "order": re_.order_ids, "store_skips": e_ss,
+                     "observer": None, "entry": entry, "module_observer": fo}
+            if fo is not None:
+                chk.count("entry:failing-module-level-observer")
+            entry_oracle(chk, world, re_, ecase)
+            chk.count("entry:" + entry)
+            if re_.error is None:
+                inc_lines.extend(world.lines(e_seeds))
+                inc_lines.append(WI.incr_line(world, graph, not fresh, e_ss, "r" if entry == "run_all(pool)" else "s"))
+                inc_cases.append(ecase)
+                # the model answers per broker handed back; the union is compared (identity is C04's business)
+                inc_impl.append(re_.text)
+        if idx >= len(corpus) and idx % 4 == 1:
+            # GLUE: a failing observer registered through every route, for every component type, raising every class the
+            # ladder treats specially; reference = this world's evaluation above
+            route, tname, exc_k = OBS_ROUTES[(idx // 4) % len(OBS_ROUTES)], OBS_TYPES[(idx // 20) % len(OBS_TYPES)], idx // 4
+            if not cases[-1].get("late"):
+                ro, fired, want = observer_eval(world, seeds, ss, graph, route, tname, exc_k)
+                ocase = {"spec": W.strip(spec), "seeds": seeds, "targets": targets, "order": ro.order_ids, "store_skips": ss,
+                         "observer": None, "obs_route": route, "obs_type": tname, "obs_exc": exc_k, "eval_mode": "run"}
+                oracle(chk, world, ro, ocase)
+                p0 = W.split_text(r.text) if r.error is None else None
+                ref_plain = None if p0 is None else "inst=%s|missing=%s|exc=%s" % (
+                    p0["inst"], p0["missing"], " ".join(sorted(":".join(e.split(":")[:2]) for e in p0["exc"].split())))
+                observer_oracle(chk, world, ro, fired, want, ocase, ref_plain)
+                obs_cases.append(ocase)
+                obs_fired.append(",".join(str(x) for x in sorted(fired, key=str)))
+                obs_want.append(",".join(str(x) for x in sorted(want, key=str)))
+                chk.count("observer-route:" + route)
+                chk.count("observer-fired:%d" % min(len(fired), 5))
+                if ro.error is None:
+                    lines.extend(world.lines(seeds))
+                    lines.append(ro.run_line)
+                    impl.append(ro.text)
+                    cases.append(ocase)
         if r.error is None:
             p = W.split_text(r.text)
             chk.case(r.text, nontrivial=bool(p["exc"]) and bool(p["inst"]))
@@ -311,6 +697,14 @@ def run(chk):
         chk.tie_broken("protocol", "driver rejected %d world lines" % len(bad), bad[:3])
     chk.compare("engine-vs-model", cases, impl, model)
     chk.sample({"case": cases[0], "impl": impl[0]})
+    if obs_cases:
+        # the mechanism behind "observers fired in finally": an observer registered through any route for a component type is
+        # fired exactly once for every component of that type in the order, evaluated or not (model: the `fired` field)
+        chk.compare("observer-firing-vs-order", obs_cases, obs_fired, obs_want)
+    if inc_lines:
+        out = run_driver("C04", inc_lines)
+        inc_model = [union_of_answer(o) for l, o in zip(inc_lines, out) if l.startswith("incr\t")]
+        chk.compare("entry-points-vs-model", inc_cases, inc_impl, inc_model)
     mism = chk.compare("get_registry_points-vs-own-traversal", rp_cases, rp_impl, rp_own)
     if mism:
         # a wrong answer means exceptions get recorded against specs the raiser neither implements nor is built on
@@ -335,7 +729,7 @@ def replay(data):
                 bad = True
         print("property violated on this input" if bad else "property holds on this input")
         return 1 if bad else 0
-    if data["case"].get("scenario") == "host-timeout":
+    if data["case"].get("scenario") in ("host-timeout", "identity"):
         class Rep(object):
             found = []
             def failure(self, d, c, finding=None):
@@ -345,10 +739,53 @@ def replay(data):
             def count(self, *a, **k):
                 pass
         rep = Rep()
-        host_timeout_scenarios(rep)
+        rep.found = []
+        if data["case"].get("scenario") == "identity":
+            identity_scenarios(rep)
+        else:
+            host_timeout_scenarios(rep)
+        for d in rep.found:
+            print("oracle:", d)
+        print("property violated on this input" if rep.found else "property holds on this input")
+        return 1 if rep.found else 0
+    case = data["case"]
+    if case.get("entry") or case.get("obs_route"):
+        import random
+
+        class Rep(object):
+            found = []
+
+            def failure(self, d, c, finding=None):
+                if finding is None:
+                    self.found.append(d)
+                else:
+                    print("oracle (known finding %s): %s" % (finding, d))
+        rep = Rep()
+        rep.found = []
+        world, seeds, graph = W.rebuild(case)
+        if case.get("entry"):
+            mo = case.get("module_observer")
+            r = WI.entry_eval(world, seeds, case["store_skips"], graph, case["entry"], random.Random(0),
+                              failing=make_observers()[mo] if mo is not None else None)
+            print("%s: %s" % (case["entry"], r.text))
+            entry_oracle(rep, world, r, case)
+        else:
+            ref = W.evaluate(world, seeds, case["store_skips"], graph, mode="run")
+            p0 = W.split_text(ref.text) if ref.error is None else None
+            ref_plain = None if p0 is None else "inst=%s|missing=%s|exc=%s" % (
+                p0["inst"], p0["missing"], " ".join(sorted(":".join(e.split(":")[:2]) for e in p0["exc"].split())))
+            r, fired, want = observer_eval(world, seeds, case["store_skips"], graph, case["obs_route"], case["obs_type"], case["obs_exc"])
+            print("with the failing observer: %s\nfired for %s (components of its type in the order: %s)" % (r.text, fired, want))
+            if sorted(fired, key=str) != sorted(want, key=str):
+                rep.found.append("the observer was not fired exactly once per component of its type in the order")
+            oracle(rep, world, r, case)
+            observer_oracle(rep, world, r, fired, want, case, ref_plain)
         for d in rep.found:
             print("oracle:", d)
         print("property violated on this input" if rep.found else "property holds on this input")
         return 1 if rep.found else 0
     oi = data["case"].get("observer")
+    if data["case"].get("debug_logging"):
+        with WI.debug_logging():
+            return W.generic_replay(data, oracle, observers=(make_observers()[oi],) if oi is not None else ())
     return W.generic_replay(data, oracle, observers=(make_observers()[oi],) if oi is not None else ())
